@@ -1,15 +1,156 @@
 /-
   C07 — NAS ciphering and integrity algorithms are the 3GPP 128-NEA/NIA algorithms.
-  Property theorems only; helper lemmas live in Stgutg/Proofs.
+  Property theorems only; helper lemmas live in Stgutg/Proofs/{Snow3g,NasAlg}.lean.
+
+  Model: Stgutg.Model.NasAlg (security.go) + Stgutg.Model.Snow3g (snow3g.go, tables regenerated
+  from the source). Spec: Stgutg.Spec.NasAlg (TS 35.215, TS 33.401 Annex B) + Stgutg.Spec.Snow3g (TS 35.216).
+  `P : Prims` carries crypto/aes, cipher.NewCTR and aead/cmac as parameters.
 -/
-import Stgutg.Model.NasAlg
-import Stgutg.Spec.NasAlg
+import Stgutg.Proofs.NasAlg
 
 namespace Stgutg.Props.C07
-open Stgutg
+open Stgutg Stgutg.Model.NasAlg
 
-/-- the S-box tables in the source are the Rijndael S-box and the SNOW 3G SQ box, all 256 entries -/
-theorem sr_table : Gen.Snow3g.sr = Spec.Snow3g.SRtable := by decide +kernel
-theorem sq_table : Gen.Snow3g.sq = Spec.Snow3g.SQtable := by decide +kernel
+/-- the S-box tables in the source are the Rijndael S-box and the SNOW 3G SQ box: all 256 entries each -/
+theorem sr_table : Gen.Snow3g.sr = Spec.Snow3g.SRtable := Proofs.Snow3g.sr_table
+theorem sq_table : Gen.Snow3g.sq = Spec.Snow3g.SQtable := Proofs.Snow3g.sq_table
+theorem tables_complete : Gen.Snow3g.sr.length = 256 ∧ Gen.Snow3g.sq.length = 256 := by decide +kernel
+
+/-- SNOW 3G: initialisation and keystream of the code model are TS 35.216's, for every key, IV and length
+    (MULα/DIVα/S1/S2 included). -/
+theorem snow3g_model_eq_spec (k0 k1 k2 k3 iv0 iv1 iv2 iv3 : UInt32) (n : Nat) :
+    (Model.Snow3g.generateKeystream n (Model.Snow3g.initSnow3g k0 k1 k2 k3 iv0 iv1 iv2 iv3)).1
+      = Spec.Snow3g.keystream n (Spec.Snow3g.init k0 k1 k2 k3 iv0 iv1 iv2 iv3) := by
+  rw [Proofs.Snow3g.keystream_eq, Proofs.Snow3g.init_eq]
+
+/-- NEA1 = 128-EEA1 for every key, COUNT, BEARER 0..31, DIRECTION 0|1 and message of ANY length
+    (every residue mod 4: the final-word mask never clears an octet that is used). -/
+theorem nea1 (P : Prims) (key : Bytes) (count : UInt32) (bearer dir : UInt8) (msg : Bytes)
+    (hb : bearer.toNat < 32) (hd : dir.toNat < 2) :
+    nasEncrypt P 1 key count bearer dir msg = .ok (Spec.NasAlg.eea1 key count bearer.toNat dir.toNat msg) := by
+  have hb' : ¬ bearer > 0x1f := by
+    intro h; have : (0x1f : UInt8).toNat < bearer.toNat := UInt8.lt_iff_toNat_lt.mp h
+    simp at this; omega
+  have hd' : ¬ dir > 1 := by
+    intro h; have : (1 : UInt8).toNat < dir.toNat := UInt8.lt_iff_toNat_lt.mp h
+    simp at this; omega
+  simp only [nasEncrypt, hb', hd', if_false]
+  exact Proofs.NasAlg.nea1_eq key count bearer dir msg hb hd
+
+/-- NIA1 = 128-EIA1 for every key, COUNT, BEARER, DIRECTION and NON-EMPTY message of any length
+    (zero-padded last block, length block, GF(2^64) products). -/
+theorem nia1 (P : Prims) (key : Bytes) (count : UInt32) (bearer dir : UInt8) (msg : Bytes)
+    (hb : bearer.toNat < 32) (hd : dir.toNat < 2) (hm : msg ≠ []) :
+    nasMac P 1 key count bearer dir msg = .ok (Spec.NasAlg.eia1 key count bearer.toNat dir.toNat msg) := by
+  have hb' : ¬ bearer > 0x1f := by
+    intro h; have : (0x1f : UInt8).toNat < bearer.toNat := UInt8.lt_iff_toNat_lt.mp h
+    simp at this; omega
+  have hd' : ¬ dir > 1 := by
+    intro h; have : (1 : UInt8).toNat < dir.toNat := UInt8.lt_iff_toNat_lt.mp h
+    simp at this; omega
+  simp only [nasMac, hb', hd', if_false]
+  exact Proofs.NasAlg.nia1_eq key count bearer dir msg hb hd hm
+
+/-- NEA2 = 128-EEA2: AES-CTR with T1 = COUNT ‖ BEARER ‖ DIRECTION ‖ 0^26 ‖ 0^64 (parametric in the CTR primitive). -/
+theorem nea2 (P : Prims) (key : Bytes) (count : UInt32) (bearer dir : UInt8) (msg : Bytes)
+    (hb : bearer.toNat < 32) (hd : dir.toNat < 2) :
+    nasEncrypt P 2 key count bearer dir msg = .ok (Spec.NasAlg.eea2 P key count bearer.toNat dir.toNat msg) := by
+  have hb' : ¬ bearer > 0x1f := by
+    intro h; have : (0x1f : UInt8).toNat < bearer.toNat := UInt8.lt_iff_toNat_lt.mp h
+    simp at this; omega
+  have hd' : ¬ dir > 1 := by
+    intro h; have : (1 : UInt8).toNat < dir.toNat := UInt8.lt_iff_toNat_lt.mp h
+    simp at this; omega
+  simp only [nasEncrypt, hb', hd', if_false]
+  exact Proofs.NasAlg.nea2_eq P key count bearer dir msg hb hd
+
+/-- NIA2 = 128-EIA2: AES-CMAC over COUNT ‖ BEARER ‖ DIRECTION ‖ 0^26 ‖ MESSAGE truncated to 32 bits. -/
+theorem nia2 (P : Prims) (key : Bytes) (count : UInt32) (bearer dir : UInt8) (msg : Bytes)
+    (hb : bearer.toNat < 32) (hd : dir.toNat < 2) :
+    nasMac P 2 key count bearer dir msg = .ok (Spec.NasAlg.eia2 P key count bearer.toNat dir.toNat msg) := by
+  have hb' : ¬ bearer > 0x1f := by
+    intro h; have : (0x1f : UInt8).toNat < bearer.toNat := UInt8.lt_iff_toNat_lt.mp h
+    simp at this; omega
+  have hd' : ¬ dir > 1 := by
+    intro h; have : (1 : UInt8).toNat < dir.toNat := UInt8.lt_iff_toNat_lt.mp h
+    simp at this; omega
+  simp only [nasMac, hb', hd', if_false]
+  exact Proofs.NasAlg.nia2_eq P key count bearer dir msg hb hd
+
+/-- NEA0 leaves the message unchanged. -/
+theorem nea0_id (P : Prims) (key : Bytes) (count : UInt32) (bearer dir : UInt8) (msg : Bytes)
+    (hb : bearer.toNat < 32) (hd : dir.toNat < 2) :
+    nasEncrypt P 0 key count bearer dir msg = .ok msg := by
+  have hb' : ¬ bearer > 0x1f := by
+    intro h; have : (0x1f : UInt8).toNat < bearer.toNat := UInt8.lt_iff_toNat_lt.mp h
+    simp at this; omega
+  have hd' : ¬ dir > 1 := by
+    intro h; have : (1 : UInt8).toNat < dir.toNat := UInt8.lt_iff_toNat_lt.mp h
+    simp at this; omega
+  simp only [nasEncrypt, hb', hd', if_false]
+
+/-- 128-EEA1 covers every octet: the output has the length of the input and octet i is
+    input octet i xor keystream octet i, the keystream having exactly that many octets. -/
+theorem eea1_covers_every_octet (key : Bytes) (count : UInt32) (bearer dir : Nat) (msg : Bytes) :
+    (Spec.NasAlg.eea1Keystream key count bearer dir msg.length).length = msg.length ∧
+    Spec.NasAlg.eea1 key count bearer dir msg
+      = List.zipWith (· ^^^ ·) msg (Spec.NasAlg.eea1Keystream key count bearer dir msg.length) := by
+  refine ⟨?_, rfl⟩
+  simp only [Spec.NasAlg.eea1Keystream, List.length_take, Proofs.NasAlg.flatMap_u32Bytes_length,
+    Proofs.Snow3g.keystream_length]
+  omega
+
+/-- a keystream cipher is an involution: applying it twice with the same parameters restores the input -/
+theorem xor_involutive (msg ks : Bytes) (h : ks.length = msg.length) :
+    xorBytes (xorBytes msg ks) ks = msg := by
+  induction msg generalizing ks with
+  | nil => simp [xorBytes]
+  | cons m ms ih =>
+    cases ks with
+    | nil => simp at h
+    | cons k ks =>
+      simp only [xorBytes, List.zipWith_cons_cons, List.cons.injEq] at *
+      refine ⟨?_, ih ks (by simpa using h)⟩
+      rw [UInt8.xor_assoc, UInt8.xor_self, UInt8.xor_zero]
+
+/-- NEA1 applied twice restores the input (any length). -/
+theorem nea1_involutive (P : Prims) (key : Bytes) (count : UInt32) (bearer dir : UInt8) (msg : Bytes)
+    (hb : bearer.toNat < 32) (hd : dir.toNat < 2) :
+    ∃ c, nasEncrypt P 1 key count bearer dir msg = .ok c ∧ nasEncrypt P 1 key count bearer dir c = .ok msg := by
+  refine ⟨_, nea1 P key count bearer dir msg hb hd, ?_⟩
+  rw [nea1 P key count bearer dir _ hb hd]
+  have hc := eea1_covers_every_octet key count bearer.toNat dir.toNat msg
+  have hlen : (Spec.NasAlg.eea1 key count bearer.toNat dir.toNat msg).length = msg.length := by
+    rw [hc.2, List.length_zipWith, hc.1]; omega
+  congr 1
+  show xorBytes _ _ = msg
+  rw [hlen]
+  exact xor_involutive msg _ hc.1
+
+/-- NEA2 applied twice restores the input, for any CTR primitive that is a keystream cipher
+    (`ctr k iv m = m xor stream k iv |m|`, which is what SP 800-38A defines). -/
+theorem nea2_involutive (P : Prims) (stream : Bytes → Bytes → Nat → Bytes)
+    (hctr : ∀ k iv m, P.ctr k iv m = xorBytes m (stream k iv m.length))
+    (hlen : ∀ k iv n, (stream k iv n).length = n)
+    (key : Bytes) (count : UInt32) (bearer dir : UInt8) (msg : Bytes)
+    (hb : bearer.toNat < 32) (hd : dir.toNat < 2) :
+    ∃ c, nasEncrypt P 2 key count bearer dir msg = .ok c ∧ nasEncrypt P 2 key count bearer dir c = .ok msg := by
+  refine ⟨_, nea2 P key count bearer dir msg hb hd, ?_⟩
+  rw [nea2 P key count bearer dir _ hb hd]
+  congr 1
+  simp only [Spec.NasAlg.eea2, hctr]
+  have h1 : (xorBytes msg (stream key (Spec.NasAlg.countBearerDir count bearer.toNat dir.toNat ++ List.replicate 8 0) msg.length)).length = msg.length := by
+    simp [xorBytes, List.length_zipWith, hlen]
+  rw [h1]
+  exact xor_involutive msg _ (hlen _ _ _)
+
+/-- The result is a function of the arguments only: `InitSnow3g` overwrites all 19 words of generator state,
+    so whatever state an earlier call left behind is irrelevant (sequential independence of earlier calls). -/
+theorem snow3g_init_overwrites_state (k0 k1 k2 k3 iv0 iv1 iv2 iv3 : UInt32) (_before : Model.Snow3g.State) :
+    Model.Snow3g.initSnow3g k0 k1 k2 k3 iv0 iv1 iv2 iv3 = Spec.Snow3g.init k0 k1 k2 k3 iv0 iv1 iv2 iv3 :=
+  Proofs.Snow3g.init_eq ..
+
+/-- the hypotheses are satisfiable: BEARER = 1 (3GPP access), DIRECTION = 0, a 5-octet message -/
+example : (1 : UInt8).toNat < 32 ∧ (0 : UInt8).toNat < 2 ∧ ([1, 2, 3, 4, 5] : Bytes) ≠ [] := by decide
 
 end Stgutg.Props.C07
